@@ -10,6 +10,7 @@ import (
 	"hash/fnv"
 	"os"
 	"path/filepath"
+	"runtime/debug"
 	"sort"
 	"strconv"
 	"sync"
@@ -367,7 +368,7 @@ func Rapid[C any](t *testing.T, r *Recorder, phase string, n int, gen func(*rapi
 				r.Sample(phase+"_first", c)
 				r.keepFallback(c)
 			}
-			if f := run(c); f != nil {
+			if f := Guard(run, c); f != nil {
 				cc := c
 				last, lastMsg = &cc, f.Msg
 				rt.Fatalf("%s", f.Msg)
@@ -386,6 +387,21 @@ func Rapid[C any](t *testing.T, r *Recorder, phase string, n int, gen func(*rapi
 		r.Inconclusive(fmt.Sprintf("rapid phase %s ran %d of %d cases", phase, ran, n))
 	}
 	return true
+}
+
+// Guard runs one case and turns a panic (the code under test crashing on a generated case) into
+// a failure that carries the top of the stack.
+func Guard[C any](run func(C) *Failure, c C) (f *Failure) {
+	defer func() {
+		if p := recover(); p != nil {
+			st := string(debug.Stack())
+			if len(st) > 2500 {
+				st = st[:2500]
+			}
+			f = Failf("panic while running the case: %v\n%s", p, st)
+		}
+	}()
+	return run(c)
 }
 
 // LoadReplay reads the replay named by VERIF_REPLAY, or returns nil.
@@ -414,7 +430,7 @@ func RunReplay[C any](rp *Replay, run func(C) *Failure) {
 		fmt.Printf("INCONCLUSIVE cannot decode case: %v\n", err)
 		os.Exit(2)
 	}
-	if f := run(c); f != nil {
+	if f := Guard(run, c); f != nil {
 		fmt.Printf("VIOLATION property=%s replay=%s\n  phase=%s: %s\n", rp.Property, os.Getenv("VERIF_REPLAY"), rp.Phase, f.Msg)
 		os.Exit(1)
 	}
